@@ -77,6 +77,8 @@ UNIT = dict(
         dict(file=DT_CPP, name='NumberDataType::getFloatFromRawValue', cname='NDT_getFloatFromRawValue', self='NDT'),
         dict(file=DT_CPP, name='NumberDataType::calcPrecision', cname='NDT_calcPrecision', self=None),
         dict(_inl, name='isAdjustableLength', cname='DataType_isAdjustableLength', static=True),
+        dict(file=DT_CPP, name='NumberDataType::derive', sig='unsigned int min, unsigned int max', cname='NDT_derive_range', self='NDT', params_c=['unsigned int min', 'unsigned int max', 'unsigned int inc', 'const NDT** derived'],
+             pre_subs=[(r'ostringstream str;.*?DataTypeList::getInstance\(\)->add\(\*derived, key\);\s*\}', 'env_new_type_range(self, min, max, inc, derived);', 1)]),
         dict(file=DT_CPP, name='NumberDataType::derive', sig='int divisor, size_t bitCount', cname='NDT_derive', self='NDT', params_c=['int divisor', 'size_t bitCount', 'const NDT** derived'],
              pre_subs=[(r'ostringstream str;.*?DataTypeList::getInstance\(\)->add\(\*derived, key\);\s*\}', 'env_new_type(self, bitCount, divisor, derived);', 1)],
              cfg=dict(own_methods={'isAdjustableLength': ('DataType_isAdjustableLength', 'self')}, text_subs=[(r'\(\*derived\) = self;', '*derived = self;')])),
@@ -131,4 +133,5 @@ for _b in (0, 1):
 R('calcPrecision', 'h_calcPrecision', 'NDT_calcPrecision', unwind=12, props=('C05', 'C20'), cost=2)
 for _b in (1, 2, 16, 256, 1000, -10):
     R('derive_base%s' % str(_b).replace('-', 'm'), 'h_derive', None, unwind=12, defines=['CASE_BASEDIV=%d' % _b], props=('C07', 'C20'), cost=30, solver='kissat')
+R('derive_range', 'h_derive_range', None, unwind=12, props=('C07', 'C20'), cost=30)
 R('type_table', 'h_type_table', None, unwind=70, props=('C05', 'C07', 'C20'), cost=20)
